@@ -1,8 +1,977 @@
-// C10 harness part (stub until built)
-use crate::verif::vx::report::Report;
+// C10: graceful-restart helper — stale routes live only while a timer or an
+// End-of-RIB is pending.
+//
+// Part (i): fixpoint BFS of the pure `gr::GrState` machine against a
+//           reference written from the statement.
+// Part (ii): explicit-state BFS over LIVE sessions: the real
+//           accept_connection + PeerSession::run (session_loop, apply_disconnect,
+//           timers) on loopback TCP, the harness plays the remote speaker.
 
-pub(crate) fn run(_replay: Option<&str>) -> Report {
+use super::super::*;
+use super::common::*;
+use crate::verif::vx::bfs::{self, BfsCfg, Model};
+use crate::verif::vx::report::Report;
+use std::collections::{BTreeMap, BTreeSet};
+use std::net::{IpAddr, Ipv4Addr};
+
+const PEER_ASN: u32 = 65001;
+const PEER_ID: u32 = 0x0a0a0a01;
+
+fn peer_ip() -> IpAddr {
+    IpAddr::V4(Ipv4Addr::new(127, 0, 1, 1))
+}
+
+fn fname(f: &Family) -> &'static str {
+    match *f {
+        Family::IPV4 => "v4",
+        Family::IPV6 => "v6",
+        _ => "??",
+    }
+}
+const FAMS: [Family; 2] = [Family::IPV4, Family::IPV6];
+
+fn net(f: &Family, k: u8) -> packet::Nlri {
+    match *f {
+        Family::IPV6 => packet::Nlri::V6(packet::bgp::Ipv6Net { addr: std::net::Ipv6Addr::new(0x2001, 0xdb8, 1 + k as u16, 0, 0, 0, 0, 0), mask: 48 }),
+        _ => packet::Nlri::V4(packet::bgp::Ipv4Net { addr: Ipv4Addr::new(10, 1 + k, 0, 0), mask: 24 }),
+    }
+}
+
+const NO_LLGR: u32 = 0xffff_0007;
+
+#[derive(Clone, Debug, PartialEq)]
+enum Reason {
+    TcpClose,
+    /// NOTIFICATION Cease / administrative shutdown from the peer
+    NotifCease,
+    /// NOTIFICATION Cease / hard reset (RFC 8538) from the peer
+    NotifHardReset,
+    /// NOTIFICATION UPDATE error from the peer (non-Cease)
+    NotifUpdateErr,
+    /// local shutdown_peer API (CloseReason::AdminShutdown)
+    LocalAdminShutdown,
+    /// the peer sends a malformed UPDATE: the daemon answers with a NOTIFICATION (non-Cease)
+    LocalUpdateError,
+}
+
+#[derive(Clone, Debug, PartialEq)]
+enum FailStage {
+    BeforeOpen,
+    AfterOpen,
+}
+
+#[derive(Clone, Debug)]
+struct EstCaps {
+    gr: Vec<Family>,
+    nbit: bool,
+    llgr: Vec<Family>,
+}
+
+#[derive(Clone, Debug)]
+enum Op {
+    Est(EstCaps),
+    Announce(Family, u8, bool),
+    Eor(Family),
+    Drop(Reason),
+    ReconnectFail(FailStage),
+    FireGrTimer,
+    FireLlgrTimer(Family),
+    Disable,
+    Enable,
+}
+
+fn fl(v: &[Family]) -> String {
+    v.iter().map(fname).collect::<Vec<_>>().join("+")
+}
+
+fn op_name(o: &Op) -> String {
+    match o {
+        Op::Est(c) => format!("establish(gr={{{}}}{},llgr={{{}}})", fl(&c.gr), if c.nbit { ",N" } else { "" }, fl(&c.llgr)),
+        Op::Announce(f, k, nl) => format!("announce({},n{}{})", fname(f), k, if *nl { ",NO_LLGR" } else { "" }),
+        Op::Eor(f) => format!("eor({})", fname(f)),
+        Op::Drop(r) => format!("drop({:?})", r),
+        Op::ReconnectFail(s) => format!("reconnect_fail({:?})", s),
+        Op::FireGrTimer => "gr_timer_expires".into(),
+        Op::FireLlgrTimer(f) => format!("llgr_timer_expires({})", fname(f)),
+        Op::Disable => "disable_peer".into(),
+        Op::Enable => "enable_peer".into(),
+    }
+}
+
+fn op_kind(o: &Op) -> String {
+    match o {
+        Op::Est(_) => "establish".into(),
+        Op::Announce(..) => "announce".into(),
+        Op::Eor(_) => "eor".into(),
+        Op::Drop(r) => format!("drop-{:?}", r),
+        Op::ReconnectFail(s) => format!("reconnect-fail-{:?}", s),
+        Op::FireGrTimer => "gr-timer".into(),
+        Op::FireLlgrTimer(_) => "llgr-timer".into(),
+        Op::Disable => "disable".into(),
+        Op::Enable => "enable".into(),
+    }
+}
+
+pub(crate) struct LiveModel {
+    name: String,
+    /// local (daemon) configuration of the neighbour
+    local_gr: Vec<Family>,
+    local_nbit: bool,
+    local_llgr: Vec<Family>,
+    ops: Vec<Op>,
+}
+
+pub(crate) struct Sys {
+    rt: tokio::runtime::Runtime,
+    d: Daemon,
+    conn: Option<Conn>,
+    /// what the current / last session negotiated (reference view)
+    neg_gr: Vec<Family>,
+    neg_nbit: bool,
+    neg_llgr: Vec<Family>,
+    /// routes announced on the CURRENT session (family, k)
+    fresh: BTreeSet<(u32, u8)>,
+    admin_down: bool,
+    sessions: u32,
+    broken: BTreeSet<String>,
+    dead: bool,
+}
+
+fn fk(f: &Family) -> u32 {
+    ((f.afi() as u32) << 8) | f.safi() as u32
+}
+
+struct RibView {
+    /// per family: (prefix, stale, llgr_stale, no_llgr)
+    paths: BTreeMap<u32, Vec<(String, bool, bool, bool)>>,
+}
+
+fn rib_view(tables: &TableHandle) -> RibView {
+    let mut paths = BTreeMap::new();
+    for f in FAMS {
+        let mut v = Vec::new();
+        for d in tables.collect_paths(table::TableQuery::AdjIn(peer_ip()), f, vec![], true) {
+            for p in &d.paths {
+                v.push((format!("{}", d.net), p.source.is_stale(), p.source.is_llgr_stale(), table::has_no_llgr_community(&p.attr)));
+            }
+        }
+        v.sort();
+        paths.insert(fk(&f), v);
+    }
+    RibView { paths }
+}
+
+struct CtxView {
+    gr_kind: &'static str,
+    gr_fp: String,
+    pending_eor: Vec<Family>,
+    gr_timer_armed: bool,
+    llgr_armed: BTreeSet<u32>,
+    act: crate::fsm::State,
+    pas: crate::fsm::State,
+}
+
+fn ctx_view(d: &Daemon, rt: &tokio::runtime::Runtime) -> Option<CtxView> {
+    rt.block_on(async {
+        let g = d.global.read().await;
+        let peer = g.peers.get(&peer_ip())?;
+        let ctx = peer.context.lock().unwrap();
+        let arb = ctx.conn_arbiter.lock().unwrap();
+        Some(CtxView {
+            gr_kind: crate::gr::verif_gr::gr_kind(&ctx.gr_state),
+            gr_fp: crate::gr::verif_gr::fp_gr(&ctx.gr_state),
+            pending_eor: crate::gr::verif_gr::gr_pending_eor(&ctx.gr_state),
+            gr_timer_armed: ctx.gr_restart_timer.as_ref().is_some_and(|t| !t.is_closed()),
+            llgr_armed: ctx.llgr_family_timers.iter().filter(|(_, t)| !t.is_closed()).map(|(f, _)| fk(f)).collect(),
+            act: arb.state(crate::fsm::Role::Active),
+            pas: arb.state(crate::fsm::Role::Passive),
+        })
+    })
+}
+
+impl LiveModel {
+    fn add_peer(&self, d: &Daemon, rt: &tokio::runtime::Runtime) {
+        let mut p = default_peer_params(peer_ip());
+        p.passive = true;
+        p.expected_remote_asn = PEER_ASN;
+        p.holdtime = 90;
+        p.families = FAMS.iter().map(|f| (*f, 0u8)).collect();
+        if !self.local_gr.is_empty() {
+            p.graceful_restart = Some(peer::GrPeerConfig { restart_time: 120, notification_enabled: self.local_nbit, families: self.local_gr.clone() });
+        }
+        if !self.local_llgr.is_empty() {
+            p.llgr = Some(peer::LlgrPeerConfig { families: self.local_llgr.iter().map(|f| (*f, 3600u32)).collect() });
+        }
+        rt.block_on(async { d.global.write().await.add_peer(p, None).expect("add_peer") });
+    }
+
+    fn peer_caps(&self, c: &EstCaps) -> Vec<packet::Capability> {
+        let mut caps: Vec<packet::Capability> = FAMS.iter().map(|f| packet::Capability::MultiProtocol(*f)).collect();
+        caps.push(packet::Capability::FourOctetAsNumber(PEER_ASN));
+        if !c.gr.is_empty() || c.nbit {
+            caps.push(packet::Capability::GracefulRestart { flags: if c.nbit { 0x4 } else { 0 }, restart_time: 120, families: c.gr.iter().map(|f| (*f, 0x80)).collect() });
+        }
+        if !c.llgr.is_empty() {
+            caps.push(packet::Capability::LongLivedGracefulRestart(c.llgr.iter().map(|f| (*f, 0u8, 3600u32)).collect()));
+        }
+        caps
+    }
+}
+
+impl Model for LiveModel {
+    type Sys = Sys;
+    fn name(&self) -> String {
+        self.name.clone()
+    }
+    fn n_ops(&self) -> usize {
+        self.ops.len()
+    }
+    fn op_name(&self, op: usize) -> String {
+        op_name(&self.ops[op])
+    }
+    fn init(&self) -> Sys {
+        let rt = runtime();
+        let d = Daemon::new(2);
+        self.add_peer(&d, &rt);
+        Sys { rt, d, conn: None, neg_gr: vec![], neg_nbit: false, neg_llgr: vec![], fresh: BTreeSet::new(), admin_down: false, sessions: 0, broken: BTreeSet::new(), dead: false }
+    }
+
+    fn step(&self, sys: &mut Sys, op: usize, out: &mut Vec<(String, String)>) -> bool {
+        if sys.dead {
+            return false;
+        }
+        let o = &self.ops[op];
+        let kind = op_kind(o);
+        let up = sys.conn.is_some();
+        let pre_ctx = ctx_view(&sys.d, &sys.rt);
+        let mut cur: Vec<(String, String)> = Vec::new();
+        // reference facts about the session that ends in this step (if any)
+        let mut ended: Option<(Reason, Vec<Family>, bool, Vec<Family>)> = None;
+        match o {
+            Op::Est(c) => {
+                if up || sys.admin_down || sys.sessions >= 3 {
+                    return false;
+                }
+                let caps = self.peer_caps(c);
+                let res = sys.rt.block_on(async {
+                    let Some(mut conn) = connect(&sys.d, peer_ip(), crate::fsm::Role::Passive).await? else {
+                        return Ok::<_, String>(None);
+                    };
+                    if conn.establish(PEER_ASN, PEER_ID, 90, caps).await? {
+                        Ok(Some(conn))
+                    } else {
+                        conn.wait_end(true).await;
+                        Ok(None)
+                    }
+                });
+                match res {
+                    Err(e) => {
+                        machinery(format!("establish: {e}"));
+                        sys.dead = true;
+                        return false;
+                    }
+                    Ok(None) => {
+                        cur.push(("C10/establish-refused".into(), format!("{}: the daemon refused / aborted a regular session set-up", op_name(o))));
+                    }
+                    Ok(Some(conn)) => {
+                        sys.conn = Some(conn);
+                        sys.sessions += 1;
+                        sys.neg_gr = self.local_gr.iter().filter(|f| c.gr.contains(f)).copied().collect();
+                        sys.neg_nbit = self.local_nbit && c.nbit && !self.local_gr.is_empty() && (!c.gr.is_empty() || c.nbit);
+                        sys.neg_llgr = self.local_llgr.iter().filter(|f| c.llgr.contains(f)).copied().collect();
+                        sys.fresh.clear();
+                    }
+                }
+            }
+            Op::Announce(f, k, no_llgr) => {
+                if !up {
+                    return false;
+                }
+                let mut attrs = vec![
+                    packet::Attribute::new_with_value(packet::Attribute::ORIGIN, 0).unwrap(),
+                    packet::Attribute::new_with_bin(packet::Attribute::AS_PATH, {
+                        let mut b = vec![2u8, 1];
+                        b.extend_from_slice(&PEER_ASN.to_be_bytes());
+                        b
+                    })
+                    .unwrap(),
+                ];
+                if *no_llgr {
+                    attrs.push(packet::Attribute::new_with_bin(packet::Attribute::COMMUNITY, NO_LLGR.to_be_bytes().to_vec()).unwrap());
+                }
+                let nexthop = match *f {
+                    Family::IPV6 => bgp::Nexthop::V6("2001:db8::1".parse().unwrap()),
+                    _ => bgp::Nexthop::V4(Ipv4Addr::new(127, 0, 1, 1)),
+                };
+                let msg = bgp::Message::Update(bgp::Update::Reach { family: *f, entries: vec![packet::PathNlri::new(net(f, *k))], nexthop: Some(nexthop), attr: Arc::new(attrs) });
+                let conn = sys.conn.as_mut().unwrap();
+                let ok = sys.rt.block_on(async { conn.send(&msg).await && conn.barrier().await });
+                if !ok {
+                    cur.push(("C10/session-lost-on-announce".into(), format!("{}: the session ended while a plain UPDATE was processed", op_name(o))));
+                    let mut c = sys.conn.take().unwrap();
+                    sys.rt.block_on(c.wait_end(true));
+                } else {
+                    sys.fresh.insert((fk(f), *k));
+                }
+            }
+            Op::Eor(f) => {
+                if !up {
+                    return false;
+                }
+                let msg = bgp::Message::eor(*f);
+                let conn = sys.conn.as_mut().unwrap();
+                let ok = sys.rt.block_on(async { conn.send(&msg).await && conn.barrier().await });
+                if !ok {
+                    cur.push(("C10/session-lost-on-eor".into(), format!("{}: the session ended while an End-of-RIB was processed", op_name(o))));
+                    let mut c = sys.conn.take().unwrap();
+                    sys.rt.block_on(c.wait_end(true));
+                }
+            }
+            Op::Drop(reason) => {
+                if !up {
+                    return false;
+                }
+                let mut conn = sys.conn.take().unwrap();
+                let d = &sys.d;
+                sys.rt.block_on(async {
+                    match reason {
+                        Reason::TcpClose => conn.wait_end(true).await,
+                        Reason::NotifCease => {
+                            conn.send(&bgp::Message::Notification(packet::Notification::CeaseAdminShutdown)).await;
+                            conn.wait_end(false).await;
+                        }
+                        Reason::NotifHardReset => {
+                            conn.send(&bgp::Message::Notification(packet::Notification::CeaseHardReset)).await;
+                            conn.wait_end(false).await;
+                        }
+                        Reason::NotifUpdateErr => {
+                            conn.send(&bgp::Message::Notification(packet::Notification::UpdateMalformedAttributeList)).await;
+                            conn.wait_end(false).await;
+                        }
+                        Reason::LocalAdminShutdown => {
+                            {
+                                let g = d.global.read().await;
+                                if let Some(p) = g.peers.get(&peer_ip()) {
+                                    p.context.lock().unwrap().force_down(CloseReason::AdminShutdown, false);
+                                }
+                            }
+                            conn.wait_end(false).await;
+                        }
+                        Reason::LocalUpdateError => {
+                            // UPDATE whose withdrawn-routes length runs past the message
+                            let mut b = vec![0xffu8; 16];
+                            b.extend_from_slice(&[0, 23, 2, 0, 9, 0, 0]);
+                            conn.send_bytes(&b).await;
+                            conn.wait_end(false).await;
+                        }
+                    }
+                });
+                ended = Some((reason.clone(), sys.neg_gr.clone(), sys.neg_nbit, sys.neg_llgr.clone()));
+                sys.fresh.clear();
+            }
+            Op::ReconnectFail(stage) => {
+                if up || sys.admin_down {
+                    return false;
+                }
+                let res = sys.rt.block_on(async {
+                    let Some(mut conn) = connect(&sys.d, peer_ip(), crate::fsm::Role::Passive).await? else {
+                        return Ok::<_, String>(());
+                    };
+                    if *stage == FailStage::AfterOpen {
+                        // read the daemon's OPEN, send ours, then vanish before KEEPALIVE
+                        let _ = conn.read_msg().await?;
+                        let my_open = bgp::Message::Open(bgp::Open {
+                            as_number: PEER_ASN,
+                            holdtime: HoldTime::new(90).unwrap(),
+                            router_id: PEER_ID,
+                            capability: vec![packet::Capability::MultiProtocol(Family::IPV4), packet::Capability::FourOctetAsNumber(PEER_ASN)],
+                        });
+                        conn.send(&my_open).await;
+                        let _ = conn.read_msg().await?; // the daemon's KEEPALIVE
+                    }
+                    conn.wait_end(true).await;
+                    Ok(())
+                });
+                if let Err(e) = res {
+                    machinery(format!("reconnect_fail: {e}"));
+                    sys.dead = true;
+                    return false;
+                }
+            }
+            Op::FireGrTimer => {
+                let Some(pc) = &pre_ctx else { return false };
+                if !pc.gr_timer_armed {
+                    return false;
+                }
+                let d = &sys.d;
+                sys.rt.block_on(async {
+                    let ctx = {
+                        let g = d.global.read().await;
+                        g.peers.get(&peer_ip()).map(|p| p.context.clone())
+                    };
+                    if let Some(ctx) = ctx {
+                        // the path real expiry takes: the timer task's oneshot fires
+                        ctx.lock().unwrap().fire_gr_timer();
+                        let c2 = ctx.clone();
+                        settle(|| crate::gr::verif_gr::gr_kind(&c2.lock().unwrap().gr_state) != "PeerRestarting", "GR timer handler ran").await;
+                    }
+                });
+            }
+            Op::FireLlgrTimer(f) => {
+                let Some(pc) = &pre_ctx else { return false };
+                if !pc.llgr_armed.contains(&fk(f)) {
+                    return false;
+                }
+                let d = &sys.d;
+                let fam = *f;
+                sys.rt.block_on(async {
+                    let ctx = {
+                        let g = d.global.read().await;
+                        g.peers.get(&peer_ip()).map(|p| p.context.clone())
+                    };
+                    if let Some(ctx) = ctx {
+                        let before = crate::gr::verif_gr::fp_gr(&ctx.lock().unwrap().gr_state);
+                        if let Some(tx) = ctx.lock().unwrap().llgr_family_timers.remove(&fam) {
+                            let _ = tx.send(());
+                        }
+                        let c2 = ctx.clone();
+                        settle(|| crate::gr::verif_gr::fp_gr(&c2.lock().unwrap().gr_state) != before, "LLGR timer handler ran").await;
+                    }
+                });
+            }
+            Op::Disable => {
+                if sys.admin_down {
+                    return false;
+                }
+                let mut conn = sys.conn.take();
+                let d = &sys.d;
+                sys.rt.block_on(async {
+                    {
+                        // the disable_peer API handler
+                        let mut g = d.global.write().await;
+                        if let Some(p) = g.peers.get_mut(&peer_ip()) {
+                            if !p.admin_down {
+                                p.admin_down = true;
+                                p.context.lock().unwrap().force_down(CloseReason::AdminShutdown, true);
+                            }
+                        }
+                    }
+                    if let Some(c) = conn.as_mut() {
+                        c.wait_end(false).await;
+                    }
+                    // let fired timer handlers run
+                    for _ in 0..20 {
+                        tokio::time::sleep(Duration::from_micros(200)).await;
+                    }
+                });
+                if conn.is_some() {
+                    ended = Some((Reason::LocalAdminShutdown, sys.neg_gr.clone(), sys.neg_nbit, sys.neg_llgr.clone()));
+                }
+                sys.admin_down = true;
+                sys.fresh.clear();
+            }
+            Op::Enable => {
+                if !sys.admin_down {
+                    return false;
+                }
+                let d = &sys.d;
+                sys.rt.block_on(async {
+                    let mut g = d.global.write().await;
+                    if let Some(p) = g.peers.get_mut(&peer_ip()) {
+                        p.admin_down = false;
+                    }
+                });
+                sys.admin_down = false;
+            }
+        }
+        if take_machinery().is_some() {
+            sys.dead = true;
+            return false;
+        }
+
+        // ------------------------------------------------------------ oracle
+        let rib = rib_view(&sys.d.tables);
+        let Some(cx) = ctx_view(&sys.d, &sys.rt) else {
+            sys.dead = true;
+            machinery("peer disappeared from Global.peers".into());
+            return false;
+        };
+        let established = sys.conn.is_some();
+        for f in FAMS {
+            let k = fk(&f);
+            let paths = rib.paths.get(&k).cloned().unwrap_or_default();
+            let any_stale = paths.iter().any(|p| p.1 || p.2);
+            let covered = cx.gr_timer_armed || cx.llgr_armed.contains(&k) || (established && cx.pending_eor.contains(&f));
+            if any_stale && !covered {
+                cur.push((
+                    format!("C10/stale-without-timer-or-eor/{kind}"),
+                    format!(
+                        "{}: family {} still holds stale routes {:?} but no restart timer, no LLGR timer for it and no End-of-RIB is pending (GrState {}, session up: {})",
+                        op_name(o), fname(&f), paths, cx.gr_fp, established
+                    ),
+                ));
+            }
+            // NO_LLGR routes are gone once the LLGR period has started for the family
+            if paths.iter().any(|p| p.2 && p.3) {
+                cur.push((format!("C10/no-llgr-route-kept/{kind}"), format!("{}: a NO_LLGR route of family {} is still present in the LLGR-stale period: {:?}", op_name(o), fname(&f), paths)));
+            }
+            // routes announced on the current session are never removed by a purge
+            if established {
+                for (fkk, kk) in &sys.fresh {
+                    if *fkk == k {
+                        let n = format!("{}", net(&f, *kk));
+                        if !paths.iter().any(|p| p.0 == n && !p.1) {
+                            cur.push((format!("C10/fresh-route-purged/{kind}"), format!("{}: {} announced on the current session is missing or stale: {:?}", op_name(o), n, paths)));
+                        }
+                    }
+                }
+            }
+        }
+        if let Some((reason, ngr, nbit, nllgr)) = &ended {
+            // which families may be retained at all, by the statement
+            let eligible = match reason {
+                Reason::TcpClose => Some(true),
+                Reason::NotifCease => Some(*nbit),
+                Reason::NotifHardReset => Some(false),
+                Reason::LocalAdminShutdown => Some(false),
+                Reason::LocalUpdateError => Some(false),
+                // a received non-Cease NOTIFICATION with the N-bit: RFC 8538 retains, the
+                // statement's wording is ambiguous -> both accepted; without N-bit never.
+                Reason::NotifUpdateErr => {
+                    if *nbit {
+                        None
+                    } else {
+                        Some(false)
+                    }
+                }
+            };
+            for f in FAMS {
+                let k = fk(&f);
+                let paths = rib.paths.get(&k).cloned().unwrap_or_default();
+                let negotiated = ngr.contains(&f) || nllgr.contains(&f);
+                if !negotiated && !paths.is_empty() {
+                    cur.push((
+                        format!("C10/non-negotiated-family-kept/{kind}"),
+                        format!("{}: family {} was not negotiated for GR/LLGR but its routes survived the drop: {:?}", op_name(o), fname(&f), paths),
+                    ));
+                }
+                if eligible == Some(false) && !paths.is_empty() {
+                    cur.push((
+                        format!("C10/helper-mode-on-ineligible-drop/{kind}"),
+                        format!("{}: the drop must not enter helper mode, yet family {} keeps routes {:?} (GrState {})", op_name(o), fname(&f), paths, cx.gr_fp),
+                    ));
+                }
+                if eligible == Some(true) && negotiated && ngr.contains(&f) && sys.fresh.is_empty() {
+                    // retained and marked stale (not asserted for LLGR-only families: NO_LLGR routes go)
+                }
+            }
+            if eligible == Some(false) && (cx.gr_kind != "Idle" || cx.gr_timer_armed || !cx.llgr_armed.is_empty()) {
+                cur.push((
+                    format!("C10/helper-state-on-ineligible-drop/{kind}"),
+                    format!("{}: after an ineligible drop GrState is {} (restart timer armed: {}, LLGR timers: {:?})", op_name(o), cx.gr_fp, cx.gr_timer_armed, cx.llgr_armed),
+                ));
+            }
+            if eligible == Some(true) && !ngr.is_empty() && !sys.admin_down && !cx.gr_timer_armed {
+                cur.push((format!("C10/restart-timer-not-armed/{kind}"), format!("{}: GR-eligible drop with GR families {} but no restart timer is armed (GrState {})", op_name(o), fl(ngr), cx.gr_fp)));
+            }
+        }
+        if let (Op::ReconnectFail(_), Some(pc)) = (o, &pre_ctx) {
+            if pc.gr_timer_armed != cx.gr_timer_armed || pc.llgr_armed != cx.llgr_armed {
+                cur.push((
+                    format!("C10/failed-reconnect-changed-timers/{kind}"),
+                    format!("{}: timers before: restart={} llgr={:?}; after: restart={} llgr={:?} (GrState {})", op_name(o), pc.gr_timer_armed, pc.llgr_armed, cx.gr_timer_armed, cx.llgr_armed, cx.gr_fp),
+                ));
+            }
+        }
+        // FSM slots are free whenever no session is up
+        if !established && (cx.act != crate::fsm::State::Idle || cx.pas != crate::fsm::State::Idle) {
+            cur.push((format!("C10/fsm-slot-leaked/{kind}"), format!("{}: no session is up but FSM slots are {:?}/{:?}", op_name(o), cx.act, cx.pas)));
+        }
+
+        let mut now = BTreeSet::new();
+        for (sig, what) in cur {
+            let clause = sig.split('/').nth(1).unwrap_or("").to_string();
+            if !sys.broken.contains(&clause) && !now.contains(&clause) {
+                out.push((sig, what));
+            }
+            now.insert(clause);
+        }
+        sys.broken = now;
+        true
+    }
+
+    fn fingerprint(&self, sys: &Sys) -> Vec<u8> {
+        let rib = rib_view(&sys.d.tables);
+        let cx = ctx_view(&sys.d, &sys.rt);
+        let c = match &cx {
+            Some(c) => format!("{}|{}|{:?}|{:?}|{:?}", c.gr_fp, c.gr_timer_armed, c.llgr_armed, c.act, c.pas),
+            None => "-".into(),
+        };
+        format!(
+            "{:?}|{}|up={}|{:?}|{}|{:?}|{:?}|adm={}|s={}|{:?}|dead={}",
+            rib.paths, c, sys.conn.is_some(), sys.neg_gr.iter().map(fk).collect::<Vec<_>>(), sys.neg_nbit, sys.neg_llgr.iter().map(fk).collect::<Vec<_>>(), sys.fresh, sys.admin_down, sys.sessions, sys.broken, sys.dead
+        )
+        .into_bytes()
+    }
+
+    fn observe(&self, sys: &Sys) -> u64 {
+        let cx = ctx_view(&sys.d, &sys.rt);
+        let k = cx.map(|c| c.gr_kind.len() as u64).unwrap_or(0);
+        let rib = rib_view(&sys.d.tables);
+        k * 100 + rib.paths.values().map(|v| v.len() as u64 + v.iter().filter(|p| p.1).count() as u64 * 7).sum::<u64>()
+    }
+
+    fn panic_sig(&self, msg: &str) -> Option<(String, String)> {
+        // a panic inside a harness step kills a runtime mid-flight: treat as machinery unless it is in daemon code
+        if msg.contains("/verif/") {
+            machinery(format!("harness panic: {msg}"));
+            None
+        } else {
+            Some((format!("C10/panic/{}", bfs::panic_loc(msg)), format!("the daemon panicked: {msg}")))
+        }
+    }
+}
+
+fn live_models(thorough: bool) -> Vec<LiveModel> {
+    let (v4, v6) = (Family::IPV4, Family::IPV6);
+    let mk = |name: &str, local_gr: Vec<Family>, local_nbit: bool, local_llgr: Vec<Family>, ests: Vec<EstCaps>, fams: Vec<Family>, reasons: Vec<Reason>| {
+        let mut ops: Vec<Op> = ests.into_iter().map(Op::Est).collect();
+        for f in &fams {
+            ops.push(Op::Announce(*f, 0, false));
+            if !local_llgr.is_empty() {
+                ops.push(Op::Announce(*f, 1, true));
+            }
+            ops.push(Op::Eor(*f));
+        }
+        for r in reasons {
+            ops.push(Op::Drop(r));
+        }
+        ops.push(Op::ReconnectFail(FailStage::BeforeOpen));
+        ops.push(Op::ReconnectFail(FailStage::AfterOpen));
+        ops.push(Op::FireGrTimer);
+        for f in &local_llgr {
+            ops.push(Op::FireLlgrTimer(*f));
+        }
+        ops.push(Op::Disable);
+        ops.push(Op::Enable);
+        LiveModel { name: name.into(), local_gr, local_nbit, local_llgr, ops }
+    };
+    let all_reasons = vec![Reason::TcpClose, Reason::NotifCease, Reason::NotifHardReset, Reason::NotifUpdateErr, Reason::LocalAdminShutdown, Reason::LocalUpdateError];
+    let mut v = vec![
+        // GR only, one family negotiated, no N-bit
+        mk(
+            "c10-gr-v4",
+            vec![v4],
+            false,
+            vec![],
+            vec![EstCaps { gr: vec![v4], nbit: false, llgr: vec![] }, EstCaps { gr: vec![], nbit: false, llgr: vec![] }],
+            vec![v4],
+            vec![Reason::TcpClose, Reason::NotifCease, Reason::LocalAdminShutdown],
+        ),
+    ];
+    if thorough {
+        v.push(mk(
+            "c10-gr-nbit-2fam",
+            vec![v4, v6],
+            true,
+            vec![],
+            vec![EstCaps { gr: vec![v4, v6], nbit: true, llgr: vec![] }, EstCaps { gr: vec![v4], nbit: false, llgr: vec![] }, EstCaps { gr: vec![], nbit: false, llgr: vec![] }],
+            vec![v4, v6],
+            all_reasons.clone(),
+        ));
+        v.push(mk(
+            "c10-gr-llgr",
+            vec![v4],
+            true,
+            vec![v4],
+            vec![EstCaps { gr: vec![v4], nbit: true, llgr: vec![v4] }, EstCaps { gr: vec![], nbit: false, llgr: vec![v4] }, EstCaps { gr: vec![], nbit: false, llgr: vec![] }],
+            vec![v4],
+            all_reasons.clone(),
+        ));
+        v.push(mk(
+            "c10-gr2-llgr1",
+            vec![v4, v6],
+            false,
+            vec![v4],
+            vec![EstCaps { gr: vec![v4, v6], nbit: false, llgr: vec![v4] }, EstCaps { gr: vec![v6], nbit: false, llgr: vec![] }],
+            vec![v4, v6],
+            vec![Reason::TcpClose, Reason::NotifCease],
+        ));
+    } else {
+        v.push(mk(
+            "c10-gr-llgr-q",
+            vec![v4],
+            true,
+            vec![v4],
+            vec![EstCaps { gr: vec![v4], nbit: true, llgr: vec![v4] }],
+            vec![v4],
+            vec![Reason::TcpClose, Reason::NotifHardReset, Reason::LocalUpdateError],
+        ));
+    }
+    v
+}
+
+// ---------------------------------------------------------------------------
+// Part (i): pure GrState fixpoint.  The reference keeps, per family, the set of
+// held route generations as (gr-stale, llgr-stale) flag pairs and applies the
+// driver's table calls for every machine output.
+
+struct PureModel {
+    ops: Vec<PIn>,
+}
+
+#[derive(Clone, Debug)]
+enum PIn {
+    /// a session reaches Established having negotiated these GR / LLGR families
+    Established(Vec<Family>, Vec<Family>),
+    /// the session ends in a GR-eligible way
+    DroppedEligible,
+    /// the session ends in a way that must not enter helper mode
+    DroppedIneligible,
+    Eor(Family),
+    Timer,
+    LlgrTimer(Family),
+}
+
+struct PSys {
+    g: crate::gr::GrState,
+    /// per family: flag pairs (gr, llgr) of the route generations still held from ended sessions
+    held: BTreeMap<u32, BTreeSet<(bool, bool)>>,
+    gr_timer: bool,
+    llgr_timers: BTreeSet<u32>,
+    up: bool,
+    neg_gr: Vec<Family>,
+    neg_llgr: Vec<Family>,
+    broken: BTreeSet<String>,
+}
+
+impl Model for PureModel {
+    type Sys = PSys;
+    fn name(&self) -> String {
+        "c10-pure-grstate".into()
+    }
+    fn n_ops(&self) -> usize {
+        self.ops.len()
+    }
+    fn op_name(&self, op: usize) -> String {
+        match &self.ops[op] {
+            PIn::Established(g, l) => format!("established(gr={{{}}},llgr={{{}}})", fl(g), fl(l)),
+            PIn::DroppedEligible => "dropped(eligible)".into(),
+            PIn::DroppedIneligible => "dropped(ineligible)".into(),
+            PIn::Eor(f) => format!("eor({})", fname(f)),
+            PIn::Timer => "timer".into(),
+            PIn::LlgrTimer(f) => format!("llgr_timer({})", fname(f)),
+        }
+    }
+    fn init(&self) -> PSys {
+        PSys { g: crate::gr::GrState::new(), held: BTreeMap::new(), gr_timer: false, llgr_timers: BTreeSet::new(), up: false, neg_gr: vec![], neg_llgr: vec![], broken: BTreeSet::new() }
+    }
+    fn step(&self, s: &mut PSys, op: usize, out: &mut Vec<(String, String)>) -> bool {
+        use crate::gr::{GrInput, GrOutput, GrParams, LlgrParams};
+        let i = &self.ops[op];
+        match i {
+            PIn::Timer if !s.gr_timer || s.up => return false,
+            PIn::LlgrTimer(f) if !s.llgr_timers.contains(&fk(f)) || s.up => return false,
+            PIn::DroppedEligible | PIn::DroppedIneligible if !s.up => return false,
+            PIn::Established(..) if s.up => return false,
+            PIn::Eor(_) if !s.up => return false,
+            _ => {}
+        }
+        let mut input = None;
+        match i {
+            PIn::Established(g, l) => {
+                s.up = true;
+                s.neg_gr = g.clone();
+                s.neg_llgr = l.clone();
+                // GrSessionEstablished handler: cancel_gr_timer() before the machine runs
+                s.gr_timer = false;
+                input = Some(GrInput::SessionEstablished { gr_families: g.clone() });
+            }
+            PIn::DroppedEligible => {
+                s.up = false;
+                // session_loop: families neither GR nor LLGR are dropped, GR families restaled
+                for f in FAMS {
+                    let k = fk(&f);
+                    let e = s.held.entry(k).or_default();
+                    if s.neg_gr.contains(&f) {
+                        let mut n: BTreeSet<(bool, bool)> = e.iter().map(|(_, l)| (true, *l)).collect();
+                        n.insert((true, false)); // the session's own routes
+                        *e = n;
+                    } else if s.neg_llgr.contains(&f) {
+                        e.insert((false, false));
+                    } else {
+                        e.clear();
+                    }
+                }
+                if s.neg_gr.is_empty() && s.neg_llgr.is_empty() {
+                    // apply_disconnect non-GR branch: the machine is not consulted
+                    s.g = crate::gr::GrState::new();
+                    s.gr_timer = false;
+                    s.llgr_timers.clear();
+                } else {
+                    input = Some(GrInput::SessionDropped {
+                        gr: if s.neg_gr.is_empty() { None } else { Some(GrParams { families: s.neg_gr.clone(), restart_time: Duration::from_secs(120) }) },
+                        llgr: if s.neg_llgr.is_empty() { None } else { Some(LlgrParams { families: s.neg_llgr.iter().map(|f| (*f, Duration::from_secs(3600))).collect() }) },
+                    });
+                }
+            }
+            PIn::DroppedIneligible => {
+                s.up = false;
+                s.held.clear();
+                s.g = crate::gr::GrState::new();
+                s.gr_timer = false;
+                s.llgr_timers.clear();
+            }
+            PIn::Eor(f) => input = Some(GrInput::EorReceived(*f)),
+            PIn::Timer => {
+                s.gr_timer = false;
+                input = Some(GrInput::TimerExpired);
+            }
+            PIn::LlgrTimer(f) => {
+                s.llgr_timers.remove(&fk(f));
+                input = Some(GrInput::LlgrTimerExpired(*f));
+            }
+        }
+        if let Some(input) = input {
+            for o in s.g.process(input) {
+                match o {
+                    GrOutput::StartTimer(_) => s.gr_timer = true,
+                    GrOutput::StopTimer => s.gr_timer = false,
+                    GrOutput::DeleteStaleRoutes(fs) => {
+                        for f in fs {
+                            if let Some(e) = s.held.get_mut(&fk(&f)) {
+                                if s.up {
+                                    e.retain(|(g, _)| !*g); // drop_stale_families
+                                } else {
+                                    e.clear(); // timer path: drop_families
+                                }
+                            }
+                        }
+                    }
+                    GrOutput::StartLlgrTimers(fs) => {
+                        if matches!(i, PIn::Timer) {
+                            // gr_restart_timer_expired: GR-stale routes of families LLGR does not take over are purged
+                            for (f, e) in s.held.iter_mut() {
+                                if !fs.iter().any(|(lf, _)| fk(lf) == *f) {
+                                    e.retain(|(g, _)| !*g);
+                                }
+                            }
+                        }
+                        for (f, _) in fs {
+                            s.llgr_timers.insert(fk(&f));
+                            if let Some(e) = s.held.get_mut(&fk(&f)) {
+                                *e = e.iter().map(|(g, _)| (*g, true)).collect(); // restale_llgr marks every path of the peer
+                            }
+                        }
+                    }
+                    GrOutput::StopLlgrTimers => s.llgr_timers.clear(),
+                    GrOutput::DeleteLlgrStaleRoutes(fs) => {
+                        for f in fs {
+                            if let Some(e) = s.held.get_mut(&fk(&f)) {
+                                e.retain(|(_, l)| !*l);
+                            }
+                        }
+                    }
+                }
+            }
+        }
+        let pending: BTreeSet<u32> = crate::gr::verif_gr::gr_pending_eor(&s.g).iter().map(fk).collect();
+        let mut cur = Vec::new();
+        for (f, gens) in &s.held {
+            if gens.is_empty() {
+                continue;
+            }
+            let covered = s.gr_timer || s.llgr_timers.contains(f) || (s.up && pending.contains(f));
+            if !covered {
+                let kind = match i {
+                    PIn::Established(..) => "established",
+                    PIn::DroppedEligible => "dropped",
+                    PIn::DroppedIneligible => "dropped-ineligible",
+                    PIn::Eor(_) => "eor",
+                    PIn::Timer => "timer",
+                    PIn::LlgrTimer(_) => "llgr-timer",
+                };
+                cur.push((
+                    format!("C10/pure/stale-family-uncovered/{kind}"),
+                    format!("{}: family {:#x} still holds routes of ended sessions (flags {:?}) but no timer is armed and no End-of-RIB is awaited (GrState {})", self.op_name(op), f, gens, crate::gr::verif_gr::fp_gr(&s.g)),
+                ));
+            }
+        }
+        let mut now = BTreeSet::new();
+        for (sig, what) in cur {
+            let clause = sig.split('/').nth(2).unwrap_or("").to_string();
+            if !s.broken.contains(&clause) && !now.contains(&clause) {
+                out.push((sig, what));
+            }
+            now.insert(clause);
+        }
+        s.broken = now;
+        true
+    }
+    fn fingerprint(&self, s: &PSys) -> Vec<u8> {
+        format!("{}|{:?}|{}|{:?}|{}|{:?}|{:?}|{:?}", crate::gr::verif_gr::fp_gr(&s.g), s.held, s.gr_timer, s.llgr_timers, s.up, s.neg_gr.iter().map(fk).collect::<Vec<_>>(), s.neg_llgr.iter().map(fk).collect::<Vec<_>>(), s.broken).into_bytes()
+    }
+    fn observe(&self, s: &PSys) -> u64 {
+        crate::gr::verif_gr::gr_kind(&s.g).len() as u64 * 10 + s.held.values().map(|v| v.len() as u64).sum::<u64>()
+    }
+}
+
+fn pure_model() -> PureModel {
+    let (v4, v6) = (Family::IPV4, Family::IPV6);
+    let mut ops = Vec::new();
+    for g in [vec![], vec![v4], vec![v4, v6]] {
+        for l in [vec![], vec![v4]] {
+            ops.push(PIn::Established(g.clone(), l));
+        }
+    }
+    ops.push(PIn::DroppedEligible);
+    ops.push(PIn::DroppedIneligible);
+    for f in [v4, v6] {
+        ops.push(PIn::Eor(f));
+        ops.push(PIn::LlgrTimer(f));
+    }
+    ops.push(PIn::Timer);
+    PureModel { ops }
+}
+
+pub(crate) fn run(replay: Option<&str>) -> Report {
     let mut rep = Report::new("C10", "hd-c10");
-    rep.machinery_error = Some("harness not built yet".into());
+    let pm = pure_model();
+    if let Some(case) = replay {
+        let Some((name, hist)) = bfs::decode_case(case) else {
+            rep.machinery_error = Some("bad replay case".into());
+            return rep;
+        };
+        if name == pm.name() {
+            eprintln!("replay {}", bfs::render(&pm, &hist));
+            rep.violations_from(bfs::replay(&pm, &hist, true));
+        } else if let Some(m) = live_models(true).into_iter().chain(live_models(false)).find(|m| m.name == name) {
+            eprintln!("replay {}", bfs::render(&m, &hist));
+            rep.violations_from(bfs::replay(&m, &hist, true));
+        } else {
+            rep.machinery_error = Some(format!("unknown model {name}"));
+        }
+        rep.evaluations = 1;
+        rep.machinery_error = rep.machinery_error.or(take_machinery());
+        return rep;
+    }
+    let thorough = rep.thorough();
+    rep.rule = "(i) fixpoint BFS of the pure GrState machine with the driver's timer/table bookkeeping as reference; (ii) explicit-state BFS over LIVE sessions (real accept_connection + PeerSession::run + apply_disconnect + timer tasks over loopback TCP, harness = remote speaker): establish with chosen GR/LLGR/N-bit capabilities, announce (plain / NO_LLGR), End-of-RIB, drop by 6 reasons, failed reconnects (before/after OPEN), restart / LLGR timer expiry via the code's own one-shot senders, disable/enable; oracle on every quiescent state; non-trivial = distinct canonical (RIB stale flags, GrState, timers, FSM slots, session) state".into();
+    rep.notes.push("assume: loopback TCP delivers in order; quiescence is established by KEEPALIVE barriers on the session's receive counter and by task completion, never by sleeping".into());
+    rep.notes.push("assume: hold-timer expiry as a drop reason is not enumerated (needs >= 3 s of real time per occurrence)".into());
+    let st = bfs::bfs(&pm, &BfsCfg { max_depth: 30, max_secs: 300, ..Default::default() }, &mut rep);
+    if !st.fixpoint {
+        rep.caps_hit.push("c10-pure: no fixpoint within depth 30".into());
+        rep.exhaustive = false;
+    }
+    let depth = if thorough { 8 } else { 4 };
+    for m in live_models(thorough) {
+        let cfg = BfsCfg { max_depth: depth, max_secs: if thorough { 2400 } else { 25 }, ..Default::default() };
+        bfs::bfs(&m, &cfg, &mut rep);
+        if let Some(e) = take_machinery() {
+            rep.machinery_error = Some(e);
+            break;
+        }
+    }
     rep
 }
